@@ -155,7 +155,9 @@ def generate(seed: int, tier: str) -> Dict[str, Any]:
     r = rng.stream("gen")
     base = _payload(rng.stream("base"), "7")
     edits = _mutate(rng.stream("edits"), base)
-    fate = r.weighted([("intact", 4), ("never_written", 1), ("removed", 2), ("truncated", 1), ("garbled", 1), ("killed", 2)])
+    # "altered": the baseline is still a well-formed full snapshot of that etag, with another payload (bit rot that happens to
+    # parse, a restore of an older file under the same name)
+    fate = r.weighted([("intact", 4), ("never_written", 1), ("removed", 2), ("truncated", 1), ("garbled", 1), ("killed", 2), ("altered", 1)])
     return {"base": base, "edits": edits, "cur_version": "8", "fate": fate, "cut": r.randint(0, 200), "kill_at": r.randint(0, 30),
             "full_sibling": r.chance(0.4), "damage_before_write": r.chance(0.5), "sibling_fate": r.choice([None, None, "truncated", "garbled"]), "in_place": r.chance(0.4),
             # the file being read is itself torn (power loss while it was written by something else than the atomic writer,
@@ -275,6 +277,22 @@ def execute(p: Dict[str, Any]) -> Dict[str, Any]:
                         sibling_damaged = True
                 # baseline fate after the delta was written
                 bp = os.path.join(d, "snapshot-7.full.json")
+                if wrote_delta and fate == "altered" and os.path.exists(bp):
+                    blines = open(bp, "rb").read().decode("utf-8").split("\n")
+                    try:
+                        bpay = json.loads(blines[1])
+                        if isinstance(bpay, dict):
+                            ks = sorted(bpay, key=str)
+                            if ks and int(p["cut"]) % 2:
+                                bpay.pop(ks[int(p["cut"]) % len(ks)])
+                            else:
+                                bpay["altered-%d" % (int(p["cut"]) % 7)] = {"v": int(p["cut"])}
+                            open(bp, "wb").write((blines[0] + "\n" + json.dumps(bpay, sort_keys=True, separators=(",", ":"), ensure_ascii=False) + "\n").encode("utf-8"))
+                            stats["baseline_damaged"] = 1
+                        else:
+                            fate = "intact"
+                    except Exception:  # noqa: BLE001
+                        fate = "intact"
                 if wrote_delta and fate in ("removed", "truncated", "garbled") and os.path.exists(bp):
                     if fate == "removed":
                         os.remove(bp)
